@@ -93,6 +93,69 @@ def _slice(s, a, b):
     return s[a:b]
 
 
+_VSETS = {}
+
+
+def _value_set(c, cap=600):
+    """All values the symbolic character can take under the path condition
+    (the whole set, so the result does not depend on the order in which the
+    solver produces them); None above cap.  Solver checks, not decisions."""
+    import z3
+    from .core import cur
+    p = cur()
+    key = (id(p), c.e.get_id(), len(p.pc) if hasattr(p, 'pc') else 0)
+    if key in _VSETS:
+        return _VSETS[key]
+    found = []
+    while True:
+        extra = [c.e != v for v in found]
+        if not p._check(*extra) if extra else not p._check():
+            break
+        mv = p.last_model().eval(c.e, model_completion=True).as_long()
+        found.append(mv)
+        if len(found) > cap:
+            _VSETS[key] = None
+            return None
+    _VSETS[key] = set(found)
+    if len(_VSETS) > 5000:
+        _VSETS.clear()
+    return set(found)
+
+
+def _named():
+    from . import rt
+    return rt.NAMED
+
+
+def _const_leaves(e, cap=2048):
+    """Values of the constant leaves of an if-then-else tree over bit-vector
+    constants (zero extensions allowed); None if the term has another
+    shape."""
+    import z3
+    out = set()
+    stack = [e]
+    seen = 0
+    while stack:
+        t = stack.pop()
+        seen += 1
+        if seen > 4 * cap:
+            return None
+        if z3.is_bv_value(t):
+            out.add(t.as_long())
+            if len(out) > cap:
+                return None
+        elif z3.is_app_of(t, z3.Z3_OP_ITE):
+            stack.append(t.arg(1))
+            stack.append(t.arg(2))
+        elif z3.is_app_of(t, z3.Z3_OP_ZERO_EXT):
+            stack.append(t.arg(0))
+        elif z3.is_const(t) and t.get_id() in _named():
+            stack.append(_named()[t.get_id()])
+        else:
+            return None
+    return out
+
+
 class _Matcher:
     def __init__(self, tree, items, is_bytes, flags):
         self.tree = tree
@@ -108,11 +171,53 @@ class _Matcher:
 
     # -- character predicates (return bool / SBool) --------------------------
     def _word(self, c):
-        self._ascii_only(c)
+        u = self._unicode_pred(c, lambda ch: ch.isalnum() or ch == '_')
+        if u is not None:
+            return u
         return Or(And(c >= 48, c <= 57), And(c >= 65, c <= 90),
                   And(c >= 97, c <= 122), c == 95)
 
+    def _unicode_pred(self, c, pred):
+        """For a str subject (no re.ASCII) and a character that may be
+        non-ASCII: the Unicode-aware class, decided per possible code point.
+        The possible code points of a symbolic character are the constant
+        leaves of its term (characters come out of table look-ups, i.e.
+        if-then-else chains over constants).  None = ASCII rules apply."""
+        if self.is_bytes or (self.flags & re.ASCII):
+            return None
+        if not isinstance(c, SInt):
+            if c <= 127:
+                return None
+            return bool(pred(chr(c)))
+        if c.hi <= 127:
+            return None
+        leaves = _const_leaves(c.e)
+        if leaves is None:
+            leaves = _value_set(c)
+        if leaves is None:
+            if c > 127:
+                raise Unsupported('unicode category on symbolic non-ascii '
+                                  'text')
+            return None
+        return Or(*[c == v for v in sorted(leaves)
+                    if 0 <= v <= 0x10ffff and pred(chr(v))])
+
     def _ascii_only(self, c):
+        # (digits and white space: the non-ASCII members of these Unicode
+        # classes do not occur in P8SCII spellings; a symbolic character that
+        # may be non-ASCII and is not a table look-up stays unsupported)
+        if isinstance(c, SInt) and c.hi > 127 and not self.is_bytes and \
+                not (self.flags & re.ASCII):
+            leaves = _const_leaves(c.e)
+            if leaves is None:
+                leaves = _value_set(c)
+            if leaves is not None and not any(
+                    v > 127 and (chr(v).isdigit() or chr(v).isspace())
+                    for v in leaves if 0 <= v <= 0x10ffff):
+                return
+        self._ascii_only_strict(c)
+
+    def _ascii_only_strict(self, c):
         if not self.is_bytes and not (self.flags & re.ASCII):
             if isinstance(c, SInt):
                 if c.hi > 127:
